@@ -1322,6 +1322,28 @@ class Interp:
                     return self.seq_cmp(op, fl, fr_)
                 if op in ("<", "<=", ">", ">=") and dc.get("order", False):
                     return self.seq_cmp(op, fl, fr_)
+            if op in ("<", "<=", ">", ">=") and any(getattr(c, "total_ordering", False) for c in l.cls.mro()):
+                # functools.total_ordering: the missing comparisons are derived from the one defined
+                # (here: from __lt__ / __le__ / __gt__ / __ge__, whichever exists) and __eq__
+                def neg(v):
+                    return lift(z3.Not(to_zbool(v))) if not isinstance(v, bool) else (not v)
+
+                def disj(a, b):
+                    return (a or b) if isinstance(a, bool) and isinstance(b, bool) else lift(z3.Or(to_zbool(a), to_zbool(b)))
+
+                def conj(a, b):
+                    return (a and b) if isinstance(a, bool) and isinstance(b, bool) else lift(z3.And(to_zbool(a), to_zbool(b)))
+                have = next((o for o in ("<", "<=", ">", ">=") if l.cls.lookup(_CMP_DUNDER[o])[0] is not None), None)
+                if have is not None and have != op:
+                    base = self.truth_value(self.call(l.cls.lookup(_CMP_DUNDER[have])[0], [l, r], {}))
+                    eq = self.truth_value(self.cmp("==", l, r))
+                    table = {
+                        ("<", "<="): lambda: disj(base, eq), ("<", ">"): lambda: conj(neg(base), neg(eq)), ("<", ">="): lambda: neg(base),
+                        ("<=", "<"): lambda: conj(base, neg(eq)), ("<=", ">"): lambda: neg(base), ("<=", ">="): lambda: disj(neg(base), eq),
+                        (">", ">="): lambda: disj(base, eq), (">", "<"): lambda: conj(neg(base), neg(eq)), (">", "<="): lambda: neg(base),
+                        (">=", ">"): lambda: conj(base, neg(eq)), (">=", "<"): lambda: neg(base), (">=", "<="): lambda: disj(neg(base), eq),
+                    }
+                    return table[(have, op)]()
         if isinstance(r, SObj) and not isinstance(l, SObj):
             f, _ = r.cls.lookup(_CMP_DUNDER[_CMP_SWAP[op]])
             if f is not None:
